@@ -2,6 +2,8 @@
    State.v models the process-global variables of the parser and the order in which every public entry point
    accesses them; Position.v gives line/column as a function of the block alone. *)
 From Coq Require Import List Bool Arith NArith.
+From Utap.gen Require Gen_StartCond.
+From Utap Require StartCond.
 From Utap Require Import Position State.
 Import ListNotations.
 
@@ -32,3 +34,9 @@ Theorem C15_below_wrap start len : (start + len < 2^32)%N -> add32 start (wrap32
 Proof. exact (below_wrap_ok start len). Qed.
 Theorem C15_wrap_refuted : exists start len, (start < 2^32)%N /\ add32 start (wrap32 (start + len)) = false.
 Proof. exact wrap_refuted. Qed.
+
+(* the lexer's start condition, the second piece of state an entry point reads before writing it: with the transition table
+   regenerated from lexer.l, every sequence of parses — whatever their texts, also texts that end inside a comment — leaves
+   the scanner in INITIAL, so a parse starts as in a fresh process *)
+Theorem C15_start_condition_reset : forall texts : list (list StartCond.ev), StartCond.session Gen_StartCond.gen_sc StartCond.INITIAL texts = StartCond.INITIAL.
+Proof. exact (StartCond.session_always_initial Gen_StartCond.gen_sc eq_refl). Qed.
